@@ -17,6 +17,9 @@ RULE = ("C16 datasets (N in 1..14, duplicated points, ties, all containers / bat
         "several batches or remainder batch or k > batch, or unfilled slots, or tied distances")
 ASSUMPTIONS = c16.ASSUMPTIONS + [
     "tf.argmax returns the first maximiser",
+    "KLEORGlobalSim with a root-form / cosine distance: a same-class case at EXACTLY the NUN's distance from the query makes the "
+    "strict comparison d(q,sf) < d(q,nun) depend on float32 rounding of two equal numbers computed on different code paths; such "
+    "cases are skipped and counted (skipped_under_guard)",
     "distances to the +inf vector left by dataset_gather when there is no unlike neighbour are +inf",
     "when several unlike neighbours are equally near, the ranking is checked against the NUN the implementation "
     "reports (nuns_indices), which must be one of them; when it is not reported the stable choice (tf.argsort is stable) is used"]
@@ -271,9 +274,28 @@ def coq_term(case, res):
         return "false"
 
 
+def boundary_tie(case):
+    """KLEORGlobalSim keeps the same-class cases STRICTLY closer to the query than the NUN.  When a same-class case is at
+    exactly the NUN's distance (e.g. it sits on the NUN) and the distance goes through a float32 root / division (euclidean,
+    Minkowski, cosine), the two equal distances are computed on different code paths and may differ in the last bit: the
+    strict comparison is then decided by rounding noise.  Such cases are skipped (counted under skipped_under_guard)."""
+    if case["method"] != "globalsim" or case["dist"] not in ("euclidean", "p2", "p3", "p9", "p12", "cosine"):
+        return False
+    cls = [argmax(t) for t in case["targets"]]
+    for qi in range(len(case["qs"])):
+        cq = argmax(case["qtargets"][qi])
+        keys = c16.all_keys(case, qi)
+        unlike = [k for k, c in zip(keys, cls) if c != cq]
+        if unlike and any(k == min(unlike) for k, c in zip(keys, cls) if c == cq):
+            return True
+    return False
+
+
 def _coq_term(case, res):
     if not shape_ok(case, res):
         return "false"
+    if boundary_tie(case):
+        return None
     a = model_args(case)
     m = case["method"]
     if m in ("naive", "label"):
